@@ -191,8 +191,10 @@ Proof.
   destruct img_ehdr as [t Ht]. pose proof wf_ehdr as H. rewrite ehdr_ok_eq in H.
   apply andb_prop in H. destruct H as [Hf _].
   unfold parse_elf_header.
-  apply struct_parse_at_exact with (L := L_ehdr s) (vals := ehdr_vals s) (t := t).
+  apply struct_parse_at_exact with (L := L_ehdr s) (vals := ehdr_vals s) (t := t)
+                                   (n := if i_is64 s then 64%nat else 52%nat).
   - apply gen_Elf_Ehdr_gabi.
+  - apply size_Ehdr.
   - exact Hf.
   - exact Ht.
   - reflexivity.
@@ -237,8 +239,10 @@ Proof.
     apply encode_layout_nonempty with (sz := if i_is64 s then 63%nat else 39%nat); [exact Hf|].
     unfold L_shdr. rewrite size_Shdr. destruct (i_is64 s); reflexivity. }
   split; [lia|].
-  apply struct_parse_at_exact with (L := L_shdr s) (vals := shdr_vals (snd x)) (t := t).
+  apply struct_parse_at_exact with (L := L_shdr s) (vals := shdr_vals (snd x)) (t := t)
+                                   (n := if i_is64 s then 64%nat else 40%nat).
   - apply gen_Elf_Shdr_gabi.
+  - apply size_Shdr.
   - exact Hf.
   - exact Ht.
   - pose proof wf_len. rewrite SEEK_LIMIT_val. lia.
